@@ -31,6 +31,8 @@ type uciSess struct {
 	log      []uciLine
 	loopDone chan struct{}
 	rdDone   chan struct{}
+	outW     *io.PipeWriter
+	closed   bool
 }
 
 func newUciSess() *uciSess {
@@ -42,6 +44,7 @@ func newUciSess() *uciSess {
 	u.h.InIo.Buffer(make([]byte, 0, 1<<20), 1<<22)
 	u.h.OutIo = bufio.NewWriter(outW)
 	u.in = inW
+	u.outW = outW
 	go func() {
 		defer close(u.loopDone)
 		u.h.Loop()
@@ -109,12 +112,37 @@ func (u *uciSess) sync(timeout time.Duration) (bool, []string) {
 // quit ends the loop; returns false if the loop did not end.
 func (u *uciSess) quit(timeout time.Duration) bool {
 	u.send("quit")
+	defer u.dispose()
 	select {
 	case <-u.loopDone:
 		return true
 	case <-time.After(timeout):
 		return false
 	}
+}
+
+// dispose releases the harness side of a session (reader goroutine, pipe buffers): the
+// engine's output pipe is closed so the reader ends, the input pipe so that a loop still
+// reading sees end of input.  Without it every session leaks a few MB.
+func (u *uciSess) dispose() {
+	u.mu.Lock()
+	done := u.closed
+	u.closed = true
+	u.mu.Unlock()
+	if done {
+		return
+	}
+	go func() {
+		// drain so that a reader blocked on a full channel can finish
+		for range u.lines {
+		}
+	}()
+	_ = u.in.Close()
+	_ = u.outW.Close()
+	go func() {
+		<-u.rdDone
+		close(u.lines)
+	}()
 }
 
 func (u *uciSess) transcript(last int) []string {
@@ -228,6 +256,11 @@ func engineDeadlocked(dump string) (bool, string) {
 			continue
 		}
 		engine++
+		if inRuntimeWorldStop(ls[1:]) {
+			// runtime.GC / ReadMemStats / FreeOSMemory wait for the world to stop on a
+			// runtime semaphore: slow on a loaded machine, but not a lock of the engine
+			return false, "live:runtime-stop-the-world@" + top
+		}
 		switch state {
 		case "semacquire", "sync.Mutex.Lock", "sync.RWMutex.Lock", "sync.RWMutex.RLock", "sync.WaitGroup.Wait", "chan send", "chan receive", "select", "sync.Cond.Wait":
 			blocked = append(blocked, top)
@@ -239,6 +272,41 @@ func engineDeadlocked(dump string) (bool, string) {
 		return false, "no engine goroutine"
 	}
 	return true, strings.Join(uniqSorted(blocked), "|")
+}
+
+// inRuntimeWorldStop tells if the frames above the first engine frame are inside one of the
+// runtime's stop-the-world services.
+func inRuntimeWorldStop(frames []string) bool {
+	for _, l := range frames {
+		t := strings.TrimSpace(l)
+		if strings.HasPrefix(t, "github.com/frankkopp/FrankyGo/internal/") {
+			return false
+		}
+		for _, pre := range []string{"runtime.GC(", "runtime.ReadMemStats(", "runtime/debug.FreeOSMemory(", "runtime/debug.freeOSMemory(", "runtime.stopTheWorld", "runtime.gcStart(", "runtime.gcWaitOnMark(", "runtime/debug.ReadGCStats(", "runtime/debug.SetGCPercent("} {
+			if strings.HasPrefix(t, pre) {
+				return true
+			}
+		}
+	}
+	return false
+}
+
+// provenDeadlock takes two goroutine dumps 3 s apart: only if both show every engine
+// goroutine parked on a synchronisation primitive, with the same signature, is it a deadlock.
+func provenDeadlock() (bool, string) {
+	dl, sig := engineDeadlocked(inProcessDump())
+	if !dl {
+		return false, sig
+	}
+	time.Sleep(3 * time.Second)
+	dl2, sig2 := engineDeadlocked(inProcessDump())
+	if !dl2 {
+		return false, sig2 + " (second dump; the first looked blocked: " + sig + ")"
+	}
+	if sig2 != sig {
+		return false, "live:blocked-set-changed:" + sig + "->" + sig2
+	}
+	return true, sig
 }
 
 func uniqSorted(s []string) []string {
